@@ -158,6 +158,8 @@ func checkC20(c *Ctx, r *Report) {
 	checkVarianceCallers(c, r)
 	checkRunsWhole(c, r)
 	checkVarianceWhole(c, r)
+	checkCountersCleared(c, r)
+	checkStartGuardSearch(c, r)
 	r.Note("not decided: the numeric contract for arbitrary counter vectors (floating-point scores are compared with the exact rational reference only on the enumerated small vectors); row lengths beyond the folded ones follow from the same loop shape but are not enumerated")
 }
 
@@ -839,4 +841,226 @@ func checkVarianceWhole(c *Ctx, r *Report) {
 	}
 	r.Extra("variance_vectors_folded", n)
 	reportFold(r, c, "S-VARWHOLE", key, fd.Pos(), bad)
+}
+
+// M-ZEROED: a recorder whose error is dropped works on counters the caller has just cleared
+func checkCountersCleared(c *Ctx, r *Report) {
+	r.Rule("M-ZEROED", "where the error of RecordPattern / RecordPatternInReverse is dropped (the RSS-14 data-character decoder: E-DROP discharges these two sites with \"on failure the counters stay zero or partial and the module-sum and parity checks reject the pair\"), the counters slice handed over is cleared in the same function before the call - a loop over all of its elements that stores 0, or clear() - with no other statement that writes it in between: RecordPatternInReverse reports a row that ended first before it has touched the counters, so without this the runs of the previous character would be decoded again", 2)
+	isRec := func(o types.Object) bool {
+		return isFuncNamed(o, "oned", "RecordPattern") || isFuncNamed(o, "oned", "RecordPatternInReverse")
+	}
+	n := 0
+	for _, p := range c.PkgList {
+		if !strings.Contains(p.PkgPath, "/oned") {
+			continue
+		}
+		for _, f := range p.Syntax {
+			for _, d := range f.Decls {
+				fd, ok := d.(*ast.FuncDecl)
+				if !ok || fd.Body == nil {
+					continue
+				}
+				for _, call := range findCalls(p, fd.Body, isRec) {
+					st := enclosingStmt(fd.Body, call)
+					if _, isExpr := st.(*ast.ExprStmt); !isExpr {
+						continue // the error is received: E-DROP / E-UNREAD look after it
+					}
+					n++
+					fn := typeutil.Callee(p.TypesInfo, call).(*types.Func)
+					key := fmt.Sprintf("%s:%s#%d", fdKey(p, fd), fn.Name(), n)
+					r.Analysed(key)
+					bad := ""
+					cnt := identObj(p, call.Args[len(call.Args)-1])
+					if cnt == nil {
+						bad = "?the counters argument is not a variable"
+					}
+					// the clearing statement: top-level in the body, before the call
+					var clearing ast.Stmt
+					if bad == "" {
+						for _, s := range fd.Body.List {
+							if !wholeBefore(s, call) {
+								break
+							}
+							if clearsAll(p, s, cnt) {
+								clearing = s
+							} else if clearing != nil && writesSlice(p, s, cnt) {
+								clearing = nil // written again after the clearing
+							}
+						}
+						if clearing == nil {
+							bad = "the counters handed to " + fn.Name() + ", whose error is dropped, are not cleared before the call: when the row ends first they still hold the runs of the previous character"
+						}
+					}
+					reportFold(r, c, "M-ZEROED", key, call.Pos(), bad)
+				}
+			}
+		}
+	}
+}
+
+// clearsAll: `for i := 0; i < len(s); i++ { s[i] = 0 }`, `for i := range s { s[i] = 0 }` or clear(s)
+func clearsAll(p *packages.Package, st ast.Stmt, s types.Object) bool {
+	storeZero := func(body *ast.BlockStmt, iv types.Object) bool {
+		if body == nil || len(body.List) != 1 {
+			return false
+		}
+		as, ok := body.List[0].(*ast.AssignStmt)
+		if !ok || len(as.Lhs) != 1 || len(as.Rhs) != 1 || as.Tok != token.ASSIGN {
+			return false
+		}
+		ix, ok := as.Lhs[0].(*ast.IndexExpr)
+		if !ok || identObj(p, ix.X) != s || identObj(p, ix.Index) != iv || iv == nil {
+			return false
+		}
+		v, isK := constInt(p, as.Rhs[0])
+		return isK && v == 0
+	}
+	switch x := st.(type) {
+	case *ast.ExprStmt:
+		if call, ok := x.X.(*ast.CallExpr); ok && len(call.Args) == 1 {
+			if b, isB := typeutil.Callee(p.TypesInfo, call).(*types.Builtin); isB && b.Name() == "clear" {
+				return identObj(p, call.Args[0]) == s
+			}
+		}
+	case *ast.RangeStmt:
+		if identObj(p, x.X) == s && x.Key != nil && x.Value == nil {
+			return storeZero(x.Body, identObj(p, x.Key))
+		}
+	case *ast.ForStmt:
+		init, ok := x.Init.(*ast.AssignStmt)
+		if !ok || len(init.Lhs) != 1 || len(init.Rhs) != 1 {
+			return false
+		}
+		iv := identObj(p, init.Lhs[0])
+		if z, isK := constInt(p, init.Rhs[0]); !isK || z != 0 {
+			return false
+		}
+		cond, ok := x.Cond.(*ast.BinaryExpr)
+		if !ok || cond.Op != token.LSS || identObj(p, cond.X) != iv {
+			return false
+		}
+		lc, ok := ast.Unparen(cond.Y).(*ast.CallExpr)
+		if !ok || len(lc.Args) != 1 || identObj(p, lc.Args[0]) != s {
+			return false
+		}
+		if b, isB := typeutil.Callee(p.TypesInfo, lc).(*types.Builtin); !isB || b.Name() != "len" {
+			return false
+		}
+		if inc, ok := x.Post.(*ast.IncDecStmt); !ok || inc.Tok != token.INC || identObj(p, inc.X) != iv {
+			return false
+		}
+		return storeZero(x.Body, iv)
+	}
+	return false
+}
+
+// writesSlice: does the statement store into an element of s or hand s to a call?
+func writesSlice(p *packages.Package, st ast.Stmt, s types.Object) bool {
+	w := false
+	ast.Inspect(st, func(n ast.Node) bool {
+		switch x := n.(type) {
+		case *ast.AssignStmt:
+			for _, l := range x.Lhs {
+				if ix, ok := l.(*ast.IndexExpr); ok && identObj(p, ix.X) == s {
+					w = true
+				}
+			}
+		case *ast.IncDecStmt:
+			if ix, ok := x.X.(*ast.IndexExpr); ok && identObj(p, ix.X) == s {
+				w = true
+			}
+		case *ast.CallExpr:
+			for _, a := range x.Args {
+				if identObj(p, a) == s {
+					if b, isB := typeutil.Callee(p.TypesInfo, x).(*types.Builtin); !isB || b.Name() != "len" {
+						w = true
+					}
+				}
+			}
+		}
+		return true
+	})
+	return w
+}
+
+// S-STARTGUARD: the UPC/EAN start-guard search on concrete rows, rejected candidates included
+func checkStartGuardSearch(c *Ctx, r *Report) {
+	r.Rule("S-STARTGUARD", "upceanReader_findStartGuardPattern, folded from source with the guard matcher, PatternMatchVariance and the BitArray queries it calls, on concrete rows: a 1:1:1 guard after a quiet zone is found where it stands, at one and at two pixels per module; a guard-shaped candidate with wider bars that touches the left border (no room for a quiet zone) is passed over and the real guard after it is found at its own position - the runs recorded for a rejected candidate do not leak into the next one; a row without a guard is a not-found error", 1)
+	fd, p := c.funcDeclOf("oned", "upceanReader_findStartGuardPattern")
+	key := "oned.upceanReader_findStartGuardPattern/rows"
+	if fd == nil {
+		r.AnchorLost("S-STARTGUARD", key, "function not found")
+		return
+	}
+	r.Analysed(key)
+	rowVal := func(s string) *Val {
+		words := &Val{K: VList, Local: true}
+		for i := 0; i < (len(s)+31)/32; i++ {
+			var w uint32
+			for b := 0; b < 32 && i*32+b < len(s); b++ {
+				if s[i*32+b] == '1' {
+					w |= 1 << uint(b)
+				}
+			}
+			words.L = append(words.L, &Val{K: VInt, I: int64(w), T: types.Typ[types.Uint32]})
+		}
+		return &Val{K: VStruct, Ptr: true, Local: true, Fields: map[string]*Val{"bits": words, "size": vint(int64(len(s)))}}
+	}
+	scale := func(s string, k int) string {
+		out := ""
+		for _, ch := range s {
+			out += strings.Repeat(string(ch), k)
+		}
+		return out
+	}
+	tail := "0001101" + "0011001" + "0010011" + "0111101" + "000000"
+	type tc struct {
+		desc, row  string
+		start, end int64 // -1: not found
+	}
+	cases := []tc{
+		{"quiet zone of 6, guard, digits", "000000" + "101" + tail, 6, 9},
+		{"the same at two pixels per module", scale("000000"+"101"+tail, 2), 12, 18},
+		{"a candidate of 3-pixel bars at the left border, 6 white pixels, then the guard", "111000111" + "000000" + "101" + tail, 15, 18},
+		{"a candidate of 2-pixel bars at the left border, 5 white pixels, then the guard", "110011" + "00000" + "101" + tail, 11, 14},
+		{"no bar at all", "00000000000000000000", -1, -1},
+	}
+	bad := ""
+	for _, cs := range cases {
+		h := &rpf{unroll: 100000, maxSteps: 2000000, effectCalls: true}
+		h.callHook = func(rr *rpf, call *ast.CallExpr, callee types.Object) (*Val, bool) {
+			if f, ok := callee.(*types.Func); ok && f.Pkg() != nil && f.Pkg().Path() == "math" && f.Name() == "Inf" && len(call.Args) == 1 {
+				if s := rr.expr(call.Args[0]); s.K == VInt {
+					return &Val{K: VFloat, F: math.Inf(int(s.I))}, true
+				}
+			}
+			return errCtorHook(rr, call, callee)
+		}
+		res, err := c.rpfCall(fd, p, []*Val{rowVal(cs.row)}, h)
+		if err != nil {
+			bad = "?" + cs.desc + ": " + err.Error()
+			break
+		}
+		if len(res) != 2 {
+			bad = "?" + cs.desc + ": unexpected result shape"
+			break
+		}
+		if cs.start < 0 {
+			if res[1].K == VNil {
+				bad = cs.desc + ": a start guard is reported"
+				break
+			}
+			continue
+		}
+		if res[1].K != VNil {
+			bad = fmt.Sprintf("%s (row %s): no start guard is found; it stands at %d..%d", cs.desc, cs.row, cs.start, cs.end)
+			break
+		}
+		got, ok := listInts(res[0])
+		if !ok || len(got) != 2 || got[0] != cs.start || got[1] != cs.end {
+			bad = fmt.Sprintf("%s (row %s): the start guard is reported at %v; it stands at [%d %d]", cs.desc, cs.row, got, cs.start, cs.end)
+			break
+		}
+	}
+	reportFold(r, c, "S-STARTGUARD", key, fd.Pos(), bad)
 }
